@@ -612,8 +612,10 @@ Proof.
   fold (rn_atoms (mg mp) (o_atoms o)). fold (rn_adj (mg mp) (o_adj o)).
   split; [split|].
   - unfold wf. simpo. now apply wfa_rename.
-  - intros l Hl x Hx. simpo. rewrite keys_rn_atoms. destruct (o_changed o) as [l0|] eqn:E; [|discriminate]. inversion Hl; subst.
-    apply In_fold_sadd in Hx. destruct Hx as [Hx|[]]. apply in_map_iff in Hx. destruct Hx as [y [<- Hy]]. apply in_map. eapply C; eauto.
+  - intros l Hl x Hx. simpo. rewrite keys_rn_atoms. destruct (o_backup o) as [bk0|].
+    + inversion Hl; subst. apply In_fold_sadd in Hx. destruct Hx as [Hx|[]]. exact Hx.
+    + destruct (o_changed o) as [l0|] eqn:E; [|discriminate]. inversion Hl; subst.
+      apply In_fold_sadd in Hx. destruct Hx as [Hx|[]]. apply in_map_iff in Hx. destruct Hx as [y [<- Hy]]. apply in_map. eapply C; eauto.
   - split; [apply heap_le_refl|]. split; [reflexivity|]. split; [|reflexivity]. simpo.
     intros r Hr. left. rewrite <- (arefs_rn_adj (mg mp)). exact Hr.
 Qed.
